@@ -336,6 +336,23 @@ def make_lorenz(rng, tier):
         idx = tuple(0 if a in axes else slice(None) for a in range(nd))
         x[idx] = x[idx] * 1e4 + 1e4 * np.abs(x).max()
     fraction = float(rng.choice([0.98, 0.9, 0.5])) if rng.random() < 0.5 else float(rng.uniform(0.3, 0.99))
+    if kind == 'integer' and rng.random() < 0.6:
+        # a cumulative power share that EQUALS the fraction in binary64 (small-integer powers): "stays below" is strict.
+        # Distinct integer magnitudes (purely real or purely imaginary entries): powers are exact and untied, so the
+        # point at the boundary is identifiable
+        mag = rng.permutation(int(np.prod(shape))).reshape(shape) + 1.0
+        x = np.where(rng.random(shape) < 0.5, mag, 1j * mag).astype(complex)
+        pw = x.real ** 2 + x.imag ** 2
+        if sen is not None:
+            pw = pw.sum(axis=sen, keepdims=True)
+        pw = np.moveaxis(pw, axes, [-(i + 1) for i in range(len(axes))])
+        row = np.sort(pw.reshape(-1, int(np.prod(pw.shape[-len(axes):])))[int(rng.integers(0, max(1, pw.size // int(np.prod(pw.shape[-len(axes):])))))], axis=None)[::-1]
+        if row.size >= 3 and row.sum() > 0:
+            lf = np.cumsum(row) / np.sum(row)
+            j = int(rng.integers(1, row.size - 1))
+            if lf[0] < lf[j] < 1:
+                fraction = float(lf[j])
+                kind = 'integer-exact-share'
     axis = [_neg(rng, a, nd) for a in axes]
     default_axis = (axis == [-2, -1]) and rng.random() < 0.5
     axis_arg = axis[0] if len(axis) == 1 and rng.random() < 0.6 else list(axis)
@@ -411,6 +428,10 @@ def eval_lorenz(rp):
     mcount = (share < frac).sum(-1)
     thr = sp[np.arange(sp.shape[0]), mcount - 1][:, None]
     edge = np.abs(share - frac).min(-1) < 1e-12                 # a share within rounding of the fraction
+    if np.all(pw == np.round(pw)) and float(pw.sum(-1).max()) < 2.0 ** 52:
+        # integer-valued powers: every partial sum is exact whatever the summation order, the share is one correctly
+        # rounded division, so "cumulative share below the fraction" (strict) is decided exactly - also at equality
+        edge = np.zeros_like(edge)
     bad = ((og == hi) != (pw > thr)) & ~edge[:, None]
     if bad.any():
         return ('lorenz_mask: high level is not exactly the set of points stronger than the weakest of the strongest points '
